@@ -96,7 +96,7 @@ def _evaluate(pred, ref, input_type, matcher="naive"):
                              instance_matcher=mt, instance_metrics=[Metric.DSC, Metric.IOU, Metric.ASSD, Metric.RVD], global_metrics=[Metric.DSC])
     res = ev.evaluate(pred, ref, verbose=False)["ungrouped"][0]
     d = res.to_dict()
-    return {k: (None if v is None else round(float(v), 9) if isinstance(v, (int, float, np.integer, np.floating)) else str(v)) for k, v in d.items()}
+    return {k: (None if v is None else ("nan" if float(v) != float(v) else round(float(v), 9)) if isinstance(v, (int, float, np.integer, np.floating)) else str(v)) for k, v in d.items()}
 
 
 def bounded(params):
